@@ -4,7 +4,7 @@ from .c04 import search_stat, search_nontrivial
 SPEC = {
     "ties": [{
         "name": "mate-in-one-searches", "group": "hsearch", "key": "MATE1", "tags": ["C13"],
-        "n_quick": 300, "n_thorough": 12000, "min_per_shard": 20, "timeout": 6000,
+        "n_quick": 224, "n_thorough": 12000, "min_per_shard": 14, "timeout": 6000,
         "nontrivial": search_nontrivial, "stat": search_stat,
     }],
     "rule": "positions with at least one mating move, found by filtering seeded random and biased playouts with the engine's own "
